@@ -25,7 +25,10 @@
                    sgpr_diagonal_correction differs from the value recorded at construction
                    (exact_gp.py:305, exact_prediction_strategies.py:790-798);
                    _VariationalStrategy.__call__ clears the memo when variational_cholesky_jitter
-                   differs from _cache_jitter_val and records it (_variational_strategy.py:328-333)
+                   differs from _cache_jitter_val and records it (_variational_strategy.py:328-333);
+                   GridInterpolationKernel.forward on a data-following grid (no grid_bounds) replaces
+                   the grid by one spanning the inputs of the call and GridKernel.update_grid deletes
+                   the cached K_UU (family [fam_kiss_dyn]; grid_kernel.py:94-111)
      p_restore   ExactGP.get_fantasy_model restores train_inputs / train_targets / likelihood /
                  prediction_strategy of the SOURCE model in a finally block  exact_gp.py:244-251
      p_shape     VariationalStrategy.forward drops the memoised Cholesky factor of K_ZZ when its
@@ -435,9 +438,64 @@ Definition fam_var (fant : bool) : family := {|
   f_ck := fun c => match cfg_of c with 3 => 1 | _ => 0 end;
   f_ck_slots := [CHOL]; f_ck_drop := [VDIST; CHOL; PSEUDO]; f_ck_train := true |}.
 
+(* exact GP whose training targets contain NaNs (missing observations), DefaultPredictionStrategy.
+   settings 0 default = observation_nan_policy 'ignore'; 1 'mask'; 2 'fill'; 3 fast_pred_var + 'mask'.
+   _mean_cache is memoised per policy (the dictionary key IS the policy: 0 / 1 / 2).  The mask of
+   missing labels that exact_predictive_covar applies is recomputed on every call from the labels and
+   the policy in force (exact_prediction_strategies.py:391-420): it is not a cache, so no slot; with
+   missing labels under 'mask' / 'fill' the exact solve is used even when fast_pred_var is on, so
+   configuration 3 does not consult covar_cache. *)
+Definition fam_exact_nan : family := {|
+  f_ncfg := NCFG * NSHAPE;
+  f_uses := fun c => match cfg_of c with
+                     | 1 => [U STRAT 0; U MEAN 1]
+                     | 2 => [U STRAT 0; U MEAN 2]
+                     | 3 => [U STRAT 0; U MEAN 1]
+                     | _ => [U STRAT 0; U MEAN 0]
+                     end;
+  f_train_uses := []; f_prior_uses := [];
+  f_fant_uses := [U MEAN 0]; f_fant_req := Some STRAT; f_fant_ok := true; f_fant_copy := [];
+  f_parent := fun sl => if (sl =? MEAN) || (sl =? COVAR) then Some STRAT else None;
+  f_ddep := fun sl => (sl =? STRAT) || (sl =? MEAN) || (sl =? COVAR);
+  f_strat_slots := [STRAT; MEAN; COVAR]; f_hook_slots := [MEAN; COVAR];
+  f_kernel_slots := []; f_vs_slots := []; f_has_data := true;
+  f_ck := fun _ => 0; f_ck_slots := []; f_ck_drop := []; f_ck_train := false |}.
+
+(* KISS-GP on a DATA-FOLLOWING grid: GridInterpolationKernel built without grid_bounds
+   (grid_is_dynamic).  Every forward call of the kernel replaces the grid by one that spans the
+   inputs of THAT call (grid_interpolation_kernel.py:150-180; has_initialized_grid is never set), and
+   GridKernel.update_grid deletes the eval-mode cached inducing covariance K_UU (_cached_kernel_mat,
+   grid_kernel.py:94-111).  The content of slot KMAT therefore depends on the input range of the
+   call that filled it, which no memo key records: it is the unkeyed value [f_ck] of the
+   configuration (0: test inputs inside the range of the training inputs, 1: test inputs outside it),
+   [sck] is the range the current grid was laid out for, and the replacement of the grid is the
+   staleness guard (point p_stale: a call on another range discards KMAT and records the new range).
+   settings 0 default; 1 fast_pred_var; 2 fast_pred_var + fast_pred_samples; 3 default settings on
+   test inputs OUTSIDE the training range.  The train-only caches of the strategy are built from the
+   train/train covariance, i.e. on the grid of the training inputs: independent of the range of the
+   test inputs.  A prior-mode call / get_fantasy_model lays out its own grid; the K_UU entry such a
+   call leaves behind is discarded by the grid replacement of the next call and is not modelled
+   (unguarded consultations must not touch a slot that depends on the unkeyed value). *)
+Definition fam_kiss_dyn : family := {|
+  f_ncfg := NCFG * NSHAPE;
+  f_uses := fun c => match cfg_of c with
+                     | 1 => [U KMAT 0; U STRAT 0; U MEAN 0; mkUse COVAR 0 true]
+                     | 2 => [U KMAT 0; U STRAT 0; U MEAN 0; mkUse COVAR 1 true]
+                     | _ => [U KMAT 0; U STRAT 0; U MEAN 0]
+                     end;
+  f_train_uses := []; f_prior_uses := [];
+  f_fant_uses := [U WISKI 0]; f_fant_req := Some STRAT; f_fant_ok := true; f_fant_copy := [];
+  f_parent := fun sl => if (sl =? MEAN) || (sl =? COVAR) || (sl =? WISKI) then Some STRAT else None;
+  f_ddep := fun sl => (sl =? STRAT) || (sl =? MEAN) || (sl =? COVAR) || (sl =? WISKI);
+  f_strat_slots := [STRAT; MEAN; COVAR; WISKI]; f_hook_slots := [MEAN; COVAR; WISKI];
+  f_kernel_slots := [KMAT]; f_vs_slots := []; f_has_data := true;
+  f_ck := fun c => match cfg_of c with 3 => 1 | _ => 0 end;
+  f_ck_slots := [KMAT]; f_ck_drop := [KMAT]; f_ck_train := false |}.
+
 Definition family_of (k : nat) : family :=
   match k with
-  | 0 => fam_exact | 1 => fam_kiss | 2 => fam_sgpr | 3 => fam_var true | _ => fam_var false
+  | 0 => fam_exact | 1 => fam_kiss | 2 => fam_sgpr | 3 => fam_var true
+  | 5 => fam_exact_nan | 6 => fam_kiss_dyn | _ => fam_var false
   end.
 
 Definition points_without (k : nat) : points :=
